@@ -504,7 +504,9 @@ def main():
     }
     if discharged_lt(ev):
         pass
-    json.dump(ev, open(os.path.join(VERIF, "evidence", pid + ".json"), "w"), indent=1)
+    # runs against a scratch tree (mutation / seeded-defect testing) must not overwrite the evidence of /repo
+    ev_path = os.path.join(VERIF, "evidence", pid + ".json") if os.path.realpath(REPO) == "/repo" else os.path.join(wd, "evidence_scratch.json")
+    json.dump(ev, open(ev_path, "w"), indent=1)
 
     for f in known_seen:
         print("KNOWN-FINDING: property=%s %s" % (pid, f["what_fails"]))
